@@ -105,6 +105,7 @@ def rule_fit_to_data(prog, rep):
         return
     loop = loops[0]
     li = body.index(loop)
+    _controls_unmodified(prog, rep, m, fn, body[:li], site, "fit_to_data", ["max_patience", "max_epochs", "return_best"])
     outs = ["params", "best_params", "losses", "__break__", "key", "opt_state"]
     got, it = summarise(prog, m, loop.body, EPOCH_IN, outs, NOIN)
     for n in outs:
@@ -185,6 +186,20 @@ def rule_fit_to_data(prog, rep):
             "params = best_params if return_best else params\ndist = eqx.combine(params, static)\n_ret = (dist, losses)\n")
 
 
+def _controls_unmodified(prog, rep, m, fn, prologue, site, name, controls):
+    """The loop and epilogue summaries read the control parameters (max_patience, max_epochs, steps, return_best)
+    as the caller's values: the statements before the loop must leave them as passed."""
+    params = [a.arg for a in fn.args.posonlyargs + fn.args.args + fn.args.kwonlyargs]
+    ctl = [c for c in controls if c in params]
+    got, _ = summarise(prog, m, prologue, params, ctl, NOIN)
+    for c in ctl:
+        t = got[c]
+        rep.check(same(t, ("sym", c.upper())), "C16.stop" if c == "max_patience" else "C16.count", site,
+                  f"{name}:{c}-reaches-the-loop-as-passed", f"{c} is not rebound before the loop",
+                  f"{c} is rebound before the loop to {show(t, 200)}: the stopping / selection logic runs with a value "
+                  f"other than the caller's (e.g. `x or default` turns 0 into the default)")
+
+
 def _select(prog, rep, m, fn, tail, site, name, ref_src):
     rets = [s for s in tail if isinstance(s, ast.Return)]
     if not rets:
@@ -213,6 +228,7 @@ def rule_variational(prog, rep):
         return
     loop = loops[0]
     li = body.index(loop)
+    _controls_unmodified(prog, rep, m, fn, body[:li], site, "fit_to_variational_target", ["steps", "return_best"])
     # iterations: keys = tqdm(jr.split(key, steps)); for key in keys
     ins0 = ["key", "dist", "loss_fn", "steps", "learning_rate", "optimizer", "return_best", "show_progress"]
     pro, _ = summarise(prog, m, body[:li], ins0, ["params", "static", "best_params", "losses", "opt_state"], NOIN)
